@@ -445,6 +445,7 @@ func (m *monC03) Online(f *Flow, c *Conn) {
 
 func (m *monC03) Final(f *Flow) {
 	w := f.W
+	_ = w
 	n := map[string]int{}
 	for _, d := range w.Broker.Deliv {
 		if d.QoS == 2 {
@@ -737,6 +738,9 @@ func (m *monC11) Step(f *Flow) {
 }
 
 func (m *monC11) Final(f *Flow) {
+	if f.O.Closers > 0 {
+		return // liveness is not asked of a client that was closed
+	}
 	m.Step(f)
 	w := f.W
 	if w.Inconcl != "" || f.QStartStep == 0 {
@@ -932,6 +936,9 @@ func (m *monC07) Wire(f *Flow, c *Conn, p *WirePkt) {
 }
 
 func (m *monC07) Final(f *Flow) {
+	if f.O.Closers > 0 {
+		return // liveness is not asked of a client that was closed
+	}
 	w := f.W
 	if w.Inconcl != "" || f.QStartStep == 0 {
 		return
@@ -967,6 +974,9 @@ func (m *monC04) Recv(f *Flow, r *Recv) {
 }
 
 func (m *monC04) Final(f *Flow) {
+	if f.O.Closers > 0 {
+		return // liveness is not asked of a client that was closed
+	}
 	w := f.W
 	if w.Inconcl != "" || f.QStartStep == 0 {
 		return
@@ -1027,7 +1037,7 @@ func (m *monC10) Final(f *Flow) {
 		}
 		w.Probe("backoff_checked")
 	}
-	if w.Inconcl != "" || f.QStartStep == 0 || f.goalReached() {
+	if w.Inconcl != "" || f.QStartStep == 0 || f.goalReached() || f.O.Closers > 0 {
 		return
 	}
 	// the quiescence phase ended without its goal: the read routine (or
